@@ -82,10 +82,10 @@ mod probe {
             let _ = asker.tell(Churn { sink: sink.clone(), stop: stop.clone() }).await;
             load.push((asker, aj, sink, sj));
         }
-        let (mut detected, mut hung, mut other) = (0usize, 0usize, 0usize);
+        let (mut detected, mut hung, mut other, mut survivor_hung) = (0usize, 0usize, 0usize, 0usize);
         let mut first_bad = String::new();
         for round in 0..rounds {
-            if hung + other >= 2 {
+            if hung + other >= 2 || survivor_hung >= 20 {
                 break; // enough evidence; every undetected round costs a 5 s wait
             }
             let (a, mut aj) = spawn::<Node>(());
@@ -130,10 +130,9 @@ mod probe {
                             // both panicked: two detections for one cycle is still "detected", not a hang
                         }
                         Err(_) => {
-                            hung += 1;
-                            if first_bad.is_empty() {
-                                first_bad = format!("round {round}: the surviving actor never finished");
-                            }
+                            // the cycle WAS detected; the survivor's own ask to the dying peer never
+                            // returned (C03's late-push finding), counted separately
+                            survivor_hung += 1;
                         }
                     }
                 }
@@ -154,7 +153,9 @@ mod probe {
             let _ = aj.await;
             let _ = sj.await;
         }
-        println!("rounds={rounds} detected={detected} hung={hung} other={other} edges_end={} {}", rsactor::__verif_wait_for_edges().len(), first_bad);
+        // an edge left at the end belongs to a survivor that hangs (its ask future is still alive)
+        let edges = rsactor::__verif_wait_for_edges().len();
+        println!("rounds={rounds} detected={detected} hung={hung} other={other} survivor_hung={survivor_hung} edges_end_minus_hung={} {}", edges.saturating_sub(survivor_hung), first_bad);
     }
 }
 
